@@ -284,6 +284,8 @@ func c20CtxOps() []ctxOp {
 		{"OnObject", func(v ap.Item) { _ = ap.OnObject(v, func(o *ap.Object) error { return nil }) }},
 		{"OnItem", func(v ap.Item) { _ = ap.OnItem(v, func(i ap.Item) error { return nil }) }},
 		{"fmt", func(v ap.Item) { _ = fmt.Sprintf("%v", v) }},
+		{"ToIRIs", func(v ap.Item) { _, _ = ap.ToIRIs(v) }},
+		{"OnIRIs", func(v ap.Item) { _ = ap.OnIRIs(v, func(i *ap.IRIs) error { return nil }) }},
 		{"CopyItemProperties(v,v')", func(v ap.Item) {
 			if o, ok := v.(*ap.Object); ok {
 				cp := *o
@@ -334,7 +336,8 @@ func c20RunCell(cell c20Cell) (outcome string, viol string) {
 		if pan, msg := guard(func() { res = h.run(n, p) }); pan {
 			return "panic", "panic: " + msg
 		}
-		if p.nonNil > 0 {
+		if p.nonNil > 0 && strings.HasPrefix(cell.NilKind, "*") && cell.NilKind != "*ItemCollection(nil)" {
+			// a pointer to a fresh empty list for a nil list is harmless; a non-nil struct pointer for a nil struct pointer is not
 			return res, fmt.Sprintf("the callback received a non-nil pointer for a %s item", cell.NilKind)
 		}
 		if want := c20Neutral(cell.Helper); want != "" && res != want {
@@ -397,6 +400,31 @@ func init() {
 					}
 				}
 			}
+		}
+		// IsNil against the model's isNilLike on generated values and every nil kind
+		cfg := &GenCfg{MaxDepth: 1, Density: 10, Links: true, ValueNodes: true, EmptyTypes: true}
+		isNilCase := func(tr interface{}) {
+			var got bool
+			in := map[string]interface{}{"op": "isNil", "v": tr}
+			if pan, msg := guard(func() { got = ap.IsNil(buildItem(tr)) }); pan {
+				c.Emit(in, "panic", true)
+				c.Fail("C20/panic", "IsNil: "+msg, c20Cell{Helper: "IsNil", NilKind: mustJSONs(tr)})
+				return
+			}
+			c.Emit(in, got, tr != nil)
+			c.Tag("isNil")
+		}
+		for _, k := range ks {
+			isNilCase(dumpItem(mkNil(k)))
+		}
+		for _, s := range []string{"", "-", "https://example.com/a", "x"} {
+			isNilCase(T{"iri": s})
+		}
+		isNilCase(T{"items": []interface{}{}, "ptr": false})
+		isNilCase(T{"items": []interface{}{}, "ptr": true})
+		isNilCase(T{"iris": []interface{}{}})
+		for i := 0; i < c.N(400, 5000); i++ {
+			isNilCase(cfg.genItem(c.R, 1))
 		}
 		var keys []string
 		for k := range panics {
